@@ -1,0 +1,23 @@
+//go:build verif
+
+// Contracts for package batch, read by /verif/engine (govc). Comment-only.
+package batch
+
+// The pending-group table and every group's argument list are only touched under the batch context's
+// mutex: the index a caller remembers is len(args) at the moment its argument is appended, in the same
+// critical section. One exemption: the creator hands bg.args to Many after it removed the group from the
+// pending table (second critical section), after which no caller can reach the group to append - the
+// list is stable (rely: args grows only while the group is pending).
+//@ guarded_by batchContext.mu: pendingBatchGroups
+//@ guarded_by batchGroup.<batchContext.mu>: args ; exempt Func.Invoke:args:arg-of-safeInvoke
+
+// safeInvoke: whatever Many does - returns, returns the wrong number of results, or panics - the caller
+// gets either an error or exactly one result per argument.
+//@ func safeInvoke$1
+//@   requires args != result
+//@   assigns cell([]interface{}), cell(error)
+//@   ensures deref(err) == nil ==> len(deref(result)) == len(deref(args))
+//@   ensures deref(args) == old(deref(args))
+
+//@ func safeInvoke
+//@   ensures err == nil ==> len(result) == len(args)
